@@ -428,7 +428,11 @@ class C08(fw.Check):
             'flat equivalent, all class pairs compared, schema / table / reference / queries through pickle and cloudpickle; '
             'distinct by program, non-trivial with >= 2 classes and a base. (h) fresh interpreters: a random creation order of '
             'the 7 primitive kinds (repeats), compound kinds, reflect of python values (Decimal, date, datetime, lists, '
-            'dicts), literals and hierarchies, plus objects of (g) shipped from the process that built them. Oracle: '
+            'dicts), literals and hierarchies, plus objects of (g) shipped from the process that built them. (i) meetings: 2-3 '
+            'fresh interpreters each make two anonymous references to one table, a query and a self-join over them, an '
+            'anonymous reference to a query, a named reference, the dynamically created table, a statement all make alike '
+            'and a one-leaf variant; a further interpreter unpickles all of it (pickle, cloudpickle), makes its own, compares '
+            'every two objects (==, both ways, hash, dict, set) and self-joins every two anonymous references to one source. Oracle: '
             'structural identity of the ASTs / of the documented resolution of a hierarchy.')
     TRUSTED = [
         'CPython str / type / tuple / float hashing is not modelled (free hash environment: no collisions); '
@@ -437,6 +441,9 @@ class C08(fw.Check):
         'pickle protocol: modelled only as "reconstruction from __getnewargs__ succeeds with the same content or not"',
         'float literals are modelled by their repr: -0.0 / nan (whose == disagrees with repr) are not generated',
         'pickle memoises: every class of a hierarchy is reduced and rebuilt once, bases first (encode / buildAll)',
+        'anonymous reference names are modelled as a function of (process, serial) (AnonNamer); that the 8 random letters of '
+        'the real code are fresh across creations and processes is probabilistic (26^8 names, `random` seeded per '
+        'interpreter) - checked on the names that actually occur in every meeting, not proved',
         'python\'s C3 linearisation is modelled (c3merge) and compared with python\'s own on every generated program',
     ]
     ASSUMPTIONS = [
@@ -1006,6 +1013,146 @@ class C08(fw.Check):
                 ops = hit[0]
                 self.violations[idx] = fw.Violation(hit[1], {'kind': 'fresh', 'job': {'ops': tuple(ops), 'blobs': ()}, 'shipped': None}, sig, None)
 
+
+    # ---- meetings: objects made independently in several interpreters are brought together in one more -------------
+    def _meet_scenarios(self) -> list:
+        """[{'makers': [recipes...], 'local': recipes}] — per maker: two anonymous references to one table, a query and a
+        self-join over them, a named reference, the (dynamically created) table, a statement every maker builds alike
+        and one only every other maker builds (a one-leaf variant)."""
+        r = self.rng
+        gen = g.Gen(r)
+        out = []
+        for _ in range(3 if self.quick else 24):
+            table = r.choice((g.STUDENT, g.SCHOOL))
+            shared = gen.statement(1)
+            muts = g.leaf_mutations(shared, r, limit=1)
+            variant = muts[0][1] if muts else shared
+
+            def recipes(m, table=table, shared=shared, variant=variant):
+                a0, a1 = ('anonref', table, (m, 0)), ('anonref', table, (m, 1))
+                first = g.fields_of(table)[0][0]
+                out = [a0, a1,
+                       ('query', a0, (('elem', a0, first),), None, (), None, (), None),
+                       ('join', a0, a1, 'inner', ('expr', 'eq', ('elem', a0, first), ('elem', a1, first))),
+                       ('ref', table, 'r'), table, shared]
+                if m in (1, 'L'):
+                    out.append(variant)
+                if r.random() < 0.5:
+                    out.append(('anonref', ('query', table, (('elem', table, first),), None, (), None, (), None), (m, 2)))
+                return tuple(out)
+
+            out.append({'makers': tuple(recipes(m) for m in range(r.choice((2, 2, 3)))), 'local': recipes('L')})
+        return out
+
+    def _run_meetings(self, scenarios: list, made=None) -> list:
+        """makers first (all scenarios at once, a new interpreter each), then one meeting interpreter per scenario"""
+        if made is None:
+            flat = [{'make': rec} for sc in scenarios for rec in sc['makers']]
+            answers = iter(cs.run_fresh(flat))
+            made = [[next(answers) for _ in sc['makers']] for sc in scenarios]
+        jobs = []
+        for sc, results in zip(scenarios, made):
+            items = []
+            for m, (rec, res) in enumerate(zip(sc['makers'], results)):
+                if 'error' in res:
+                    raise fw.MachineryError(f'maker interpreter failed: {res["error"][-300:]}')
+                for ast, blobs in zip(rec, res['made']):
+                    items.append({'origin': m, 'ast': ast, 'blobs': blobs})
+            jobs.append({'meet': {'items': tuple(items), 'local': sc['local']}})
+        results = cs.run_fresh(jobs)
+        for res in results:
+            if 'error' in res:
+                raise fw.MachineryError(f'meeting interpreter failed: {res["error"][-300:]}')
+        return [(job['meet'], res['meet']) for job, res in zip(jobs, results)]
+
+    def _oracle_meet(self, spec: dict, res: dict) -> list:
+        """[(what, signature, (i, j) | None)] — equal structures stay equal, distinct creations stay distinct"""
+        out = []
+        recipes = [it['ast'] for it in spec['items']] + list(spec['local'])
+        origin = [f'maker {it["origin"]}' for it in spec['items']] + ['the meeting process'] * len(spec['local'])
+        for codec in ('pickle', 'cloudpickle'):
+            got = res[codec]
+            known = 'cloudpickle-by-value' if codec == 'cloudpickle' else None
+            for k, err in got['errors']:
+                if err.startswith('build:'):  # the DSL refused the recipe: nothing was made
+                    continue
+                out.append((f'object {k} ({origin[k]}) does not arrive through {codec}: {err}', known or 'meet:load', None))
+            for i, j, obs in got['bad']:
+                same = recipes[i] == recipes[j]
+                if not same and cs.forget_idents(recipes[i]) == cs.forget_idents(recipes[j]):
+                    out.append((f'two different anonymous references ({origin[i]} / {origin[j]}; {codec}) are one object after they '
+                                f'met: ==, == reversed, hash equal, in dict, in set = {list(obs)}', 'anonymous-reference-collapse', (i, j)))
+                elif same:
+                    out.append((f'the same structure made by {origin[i]} and {origin[j]} ({codec}): ==, == reversed, hash equal, in '
+                                f'dict, in set = {list(obs)}', known or 'meet:equal', (i, j)))
+                else:
+                    out.append((f'different structures made by {origin[i]} and {origin[j]} ({codec}) are confused: ==, == reversed, '
+                                f'hash equal, in dict, in set = {list(obs)}', known or 'meet:distinct', (i, j)))
+            for i, j, obs in got['joins']:
+                out.append((f'self-join between the anonymous references of {origin[i]} and {origin[j]} ({codec}): left == right, '
+                            f'distinct features / expected, distinct join columns, selected columns equal = {obs}',
+                            known or 'anonymous-reference-collapse', (i, j)))
+        return out
+
+    def _meetings(self) -> None:
+        scenarios = self._meet_scenarios()
+        lines, index = [], []
+        first: dict = {}
+        for sc, (spec, res) in zip(scenarios, self._run_meetings(scenarios)):
+            self.case(('meet', sc['makers'], sc['local']), f'meeting of {len(sc["makers"])} makers + local objects', nontrivial=True)
+            for what, sig, where in self._oracle_meet(spec, res):
+                if sig not in first:
+                    first[sig] = (len(self.violations), sc, spec, where)
+                self.violate(what, {'kind': 'meet', 'makers': sc['makers'], 'local': sc['local']}, sig)
+            # model: `==` / hash of the anonymous references as they arrived (their real names)
+            asts = {i: tuplify(a) for i, a in res['pickle']['asts'] if not isinstance(a, str)}
+            ids = sorted(asts)
+            badpairs = {(i, j): obs for i, j, obs in res['pickle']['bad']}
+            recipes = [it['ast'] for it in spec['items']] + list(spec['local'])
+            for a in range(len(ids)):
+                for b in range(a + 1, len(ids)):
+                    i, j = ids[a], ids[b]
+                    lines.append(sexp.dumps(g.with_let(('eqs', g.short(asts[i]), g.short(asts[j])))))
+                    if (i, j) in badpairs:
+                        obs = badpairs[(i, j)]
+                        impl = [obs[0], 'true' if obs[2] is True else 'false']
+                    else:
+                        same = recipes[i] == recipes[j]
+                        impl = ['true', 'true'] if same else ['false', None]
+                    index.append((sc, i, j, impl))
+        for (sc, i, j, impl), answer in zip(index, self.model(lines) if lines else []):
+            a = sexp.loads(answer)
+            if not (isinstance(a, list) and a[0] == 'eq' and a[1] == impl[0] and (impl[1] is None or a[2] == impl[1])):
+                self.diverge('== / hash of anonymous references after they met', {'meet': {'makers': sc['makers'], 'local': sc['local']},
+                                                                                'objects': [i, j]}, impl, a)
+        self._shrink_meet(first)
+
+    def _shrink_meet(self, first: dict) -> None:
+        """keep the two objects of the first confused pair only (each in its own maker / the meeting process)"""
+        for sig, (idx, sc, spec, where) in list(first.items())[:3]:
+            if where is None or sig in self._known_signatures():
+                continue
+            recipes = [(it['origin'], it['ast']) for it in spec['items']] + [('L', a) for a in spec['local']]
+            (oi, ai), (oj, aj) = recipes[where[0]], recipes[where[1]]
+            makers = [[], []]
+            local = []
+            for slot, (o, a) in enumerate(((oi, ai), (oj, aj))):
+                if o == 'L':
+                    local.append(a)
+                else:
+                    makers[slot].append(a)
+            makers = tuple(tuple(m) for m in makers if m)
+            while len(makers) < 2:
+                makers = makers + ((('ref', g.SCHOOL, 'r'),),)
+            small = {'makers': makers, 'local': tuple(local)}
+            try:
+                (spec2, res2), = self._run_meetings([small])
+            except fw.MachineryError:
+                continue
+            hit = [f for f in self._oracle_meet(spec2, res2) if f[1] == sig]
+            if hit:
+                self.violations[idx] = fw.Violation(hit[0][0] + ' (shrunk)', {'kind': 'meet', **small}, sig, None)
+
     # ---- oracle ---------------------------------------------------------------------------------------------
     @staticmethod
     def _cause_of(sort: str, ax, ay) -> typing.Optional[str]:
@@ -1286,7 +1433,10 @@ class C08(fw.Check):
         hier = self._hierarchies()
         t2 = time.time()
         self._fresh(hier)
-        self.notes.append(f'wall: pairs / families {t1 - t0:.0f}s, class hierarchies {t2 - t1:.0f}s, fresh interpreters {time.time() - t2:.0f}s')
+        t3 = time.time()
+        self._meetings()
+        self.notes.append(f'wall: pairs / families {t1 - t0:.0f}s, class hierarchies {t2 - t1:.0f}s, fresh interpreters {t3 - t2:.0f}s, '
+                          f'meetings {time.time() - t3:.0f}s')
 
     # ---- shrinking / search ---------------------------------------------------------------------------------------
     @staticmethod
@@ -1435,6 +1585,10 @@ class C08(fw.Check):
         elif w.get('kind') == 'hier':
             obs = self._replay_observe(case)
             found = [(what, sig) for what, sig, _ in self._oracle_hier(case, obs)]
+        elif w.get('kind') == 'meet':
+            sc = {'makers': tuplify(w['makers']), 'local': tuplify(w['local'])}
+            (spec, res), = self._run_meetings([sc])
+            found = [(what, sig) for what, sig, _ in self._oracle_meet(spec, res)]
         elif w.get('kind') == 'fresh':
             job = {'ops': tuplify(w['job']['ops']), 'blobs': ()}
             if case is not None:
